@@ -436,6 +436,8 @@ pub struct Facts {
     pub fault_at: Option<u64>,
     pub last_transfer: u64,
     pub last_activity: u64,
+    /// last step (read, end of stream, accepted write) of each direction
+    pub last_step: [u64; 2],
     pub partial_writes: usize,
     pub restarts_likely: bool,
     pub dropped: usize,
@@ -454,6 +456,7 @@ pub fn check_history(case: &PipeCase, r: &RunResult) -> Result<Facts, Violation>
         fault_at: None,
         last_transfer: 0,
         last_activity: 0,
+        last_step: [0; 2],
         partial_writes: 0,
         restarts_likely: false,
         dropped: 0,
@@ -465,8 +468,12 @@ pub fn check_history(case: &PipeCase, r: &RunResult) -> Result<Facts, Violation>
             Ev::Read { d, n } => {
                 f.read[*d] += n;
                 f.last_activity = f.last_activity.max(*t);
+                f.last_step[*d] = f.last_step[*d].max(*t);
             }
-            Ev::ReadEof { .. } => f.last_activity = f.last_activity.max(*t),
+            Ev::ReadEof { d, .. } => {
+                f.last_activity = f.last_activity.max(*t);
+                f.last_step[*d] = f.last_step[*d].max(*t);
+            }
             Ev::Write { d, offered, accepted, content_ok } => {
                 ensure!(
                     f.first_eof[*d].is_none(),
@@ -508,6 +515,7 @@ pub fn check_history(case: &PipeCase, r: &RunResult) -> Result<Facts, Violation>
                 if *accepted > 0 {
                     f.last_transfer = f.last_transfer.max(*t);
                     f.last_activity = f.last_activity.max(*t);
+                    f.last_step[*d] = f.last_step[*d].max(*t);
                 }
             }
             Ev::Consume { d, n } => {
@@ -679,7 +687,10 @@ pub fn judge(case: &PipeCase, r: &RunResult, timing: bool) -> Verdict {
                         prev = x;
                     }
                     if steady {
-                        let half_closed = f.first_eof.iter().any(|e| e.is_some());
+                        // the known finding: one direction has finished and the survivor's own timer
+                        // expired (it made no step for T); a half-closed tunnel closed while the
+                        // survivor itself was moving is something else
+                        let half_closed = (0..2).any(|d| f.first_eof[d].is_some() && f.first_eof[1 - d].is_none() && r.returned_at.saturating_sub(f.last_step[1 - d]) + TOL >= t);
                         return viol(
                             if half_closed {
                                 "timeout:closed-while-active:one-direction-finished"
